@@ -7,8 +7,11 @@ import os
 from vlib import coq_N_list, coq_list, coq_bool, coq_opt
 
 WS_NO_NL = (9, 11, 12, 13, 32)
-# which repairs of fixes/C03-*.diff the tree under test is expected to contain (see checks/C03.py)
-CFG = set(x for x in os.environ.get("VERIF_C03_CFG", "").split(",") if x)
+# which of the three C03 repairs the tree under test contains.  They are in the repository (fix: commits
+# e67d3d01 fix_ws, 574d1b31 fix_empty, 1915eb6c fix_sep), so all three is the default; VERIF_C03_CFG=pinned
+# (or a comma separated subset) selects the model instance for a tree without them.
+ALL_FIXES = ("fix_ws", "fix_empty", "fix_sep")
+CFG = set(x for x in os.environ.get("VERIF_C03_CFG", ",".join(ALL_FIXES)).split(",") if x in ALL_FIXES)
 
 
 # ---------------------------------------------------------------- token view of a lexed file
@@ -457,7 +460,7 @@ def gen_block_comment(rng, nl, allow_cr_lines):
 
 def gen_trivia(rng, nl, rich, need_sep, last_gap, allow_cr_lines=True):
     """bytes to put between two tokens. rich: a declaration-level gap (comments likely)."""
-    sp = lambda: rng.choice([b" ", b" ", b"  ", b"\t", b"    ", b" \t "])
+    sp = lambda: rng.choice([b" ", b" ", b"  ", b"\t", b"    ", b" \t ", b" ", b"\x0c", b" \x0b"])
     p = rng.below(100)
     if not rich:
         if p < 55:
@@ -736,3 +739,50 @@ def c23_oracle(src, out, lines):
             if not ok:
                 fails.append(("extra-option-location-outside-option-value", "added location is not inside an option value", dict(ext=y)))
     return fails
+
+
+# ---------------------------------------------------------------- exhaustive small domain
+def small_gap_shapes(maxlen):
+    """every sequence of at most maxlen items over: newline, line comment (with its newline), one-line block
+    comment, two-line block comment"""
+    import itertools
+    out = []
+    for n in range(maxlen + 1):
+        out += list(itertools.product("NLBM", repeat=n))
+    return out
+
+
+def render_shape(shape, tag):
+    out = b""
+    for i, it in enumerate(shape):
+        if it == "N":
+            out += b"\n"
+        elif it == "L":
+            out += b" // l%d%s\n" % (i, tag)
+        elif it == "B":
+            out += b" /* b%d%s */" % (i, tag)
+        else:
+            out += b" /* m%d%s\n  * more */" % (i, tag)
+    return out + b" "
+
+
+def exhaustive_sources(maxlen, per_file=50):
+    """files in which every small gap shape occurs between two declarations, before a closing brace, and before
+    an empty statement; and once each at the end of the file"""
+    shapes = small_gap_shapes(maxlen)
+    files = []
+    for lo in range(0, len(shapes), per_file):
+        chunk = shapes[lo:lo + per_file]
+        src = b"syntax = \"proto2\";\nmessage M {\n  optional int32 f0 = 1;"
+        n = 1
+        for k, sh in enumerate(chunk):
+            n += 1
+            src += render_shape(sh, b"a%d" % k) + b"optional int32 f%d = %d;" % (n, n)
+        src += b"\n}\n"
+        for k, sh in enumerate(chunk):
+            src += b"message C%d { optional int32 x = 1;" % k + render_shape(sh, b"c%d" % k) + b"}\n"
+            src += b"message S%d { optional int32 x = 1;" % k + render_shape(sh, b"s%d" % k) + b"; }\n"
+        files.append(src)
+    for sh in shapes[:: max(1, len(shapes) // 40)]:
+        files.append(b"syntax = \"proto2\";\nmessage E { optional int32 x = 1; }" + render_shape(sh, b"e").rstrip(b" "))
+    return files
